@@ -494,6 +494,31 @@ fn pending_is_registered() {
     }
 }
 
+// ---- allocation shims --------------------------------------------------------------
+//
+// Every heap block on the stream paths is N one-byte items wide (the vector's
+// storage, and for a lifted payload the `Cleanup` scratch buffer of
+// `elem_size * len` bytes).  The length reaches `Cleanup::new` through
+// `Vec::len()` of a vector that has been moved around, which CBMC does not
+// constant-fold; a request of symbolic size makes the formula explode
+// (measured: > 12 GB).  The shims *assert* that the request is exactly N bytes
+// and serve it with a constant-size request.
+macro_rules! alloc_shim {
+    ($name:ident, $n:expr) => {
+        unsafe fn $name(layout: Layout) -> *mut u8 {
+            assert!(layout.size() == $n && layout.align() == 1, "unexpected allocation request");
+            std::alloc::alloc_zeroed(Layout::from_size_align_unchecked($n, 1))
+        }
+    };
+}
+alloc_shim!(alloc_1, 1);
+alloc_shim!(alloc_2, 2);
+alloc_shim!(alloc_3, 3);
+unsafe fn alloc_0(_: Layout) -> *mut u8 {
+    assert!(false, "allocation for an empty vector");
+    core::ptr::null_mut()
+}
+
 // ---- ReturnCode::decode ------------------------------------------------------------
 
 /// All 2^32 inputs that are valid encodings: `BLOCKED`, or `(amount << 4) | tag`
@@ -683,10 +708,11 @@ unsafe fn finish_write<T: Item>(len: usize, back: usize) {
 }
 
 macro_rules! c19w {
-    ($name:ident, $t:ty, $len:expr, [$($script:tt)*], $covers:expr) => {
+    ($name:ident, $t:ty, $len:expr, $alloc:ident, [$($script:tt)*], $covers:expr) => {
         #[kani::proof]
         #[kani::unwind(5)]
         #[kani::stub(wit_bindgen::rt::async_support::cabi::wasip3_task_set, crate::mock_task::stub_task_set)]
+        #[kani::stub(std::alloc::alloc, $alloc)]
         fn $name() {
             unsafe {
                 let mut t1 = mt::new_v1_a();
@@ -714,36 +740,48 @@ macro_rules! c19w {
     };
 }
 
-fn cw_pc() {
+fn cw_pc<const N: usize>() {
     unsafe {
-        kani::cover!(H.cancel_write_calls == 0 && H.log_n == 3, "everything written at once");
+        kani::cover!(H.cancel_write_calls == 0 && H.log_n == N, "everything written at once");
         kani::cover!(H.cancel_write_calls == 0 && H.log_n == 1 && !H.reader_dropped, "partial write");
-        kani::cover!(H.cancel_write_calls == 0 && H.log_n == 2 && H.reader_dropped, "reader dropped after a partial transfer");
+        kani::cover!(H.cancel_write_calls == 0 && H.log_n == 1 && H.reader_dropped, "reader dropped after a partial transfer");
         kani::cover!(H.cancel_write_calls == 1 && H.log_n == 0 && !H.reader_dropped, "cancel won, nothing sent");
-        kani::cover!(H.cancel_write_calls == 1 && H.log_n == 2, "cancel lost or partial: two items went through");
+        kani::cover!(H.cancel_write_calls == 1 && H.log_n == N - 1, "cancel raced a partial transfer (CANCELLED(k), k > 0)");
     }
 }
-fn cw_pec() {
+fn cw_pec<const N: usize>() {
     unsafe {
-        kani::cover!(H.cancel_write_calls == 0 && mt::L[0].n_delivered == 1 && H.log_n == 2, "cancel() with a partial completion already queued");
+        kani::cover!(H.cancel_write_calls == 0 && mt::L[0].n_delivered == 1 && H.log_n == N - 1, "cancel() with a partial completion already queued");
         kani::cover!(H.cancel_write_calls == 0 && mt::L[0].n_delivered == 1 && H.reader_dropped && H.log_n == 0, "cancel() with a reader-dropped event already queued");
     }
 }
-fn cw_pep() {
+fn cw_pep<const N: usize>() {
     unsafe {
-        kani::cover!(mt::L[0].n_delivered == 1 && H.log_n == 3, "blocked write completed by an event");
+        kani::cover!(mt::L[0].n_delivered == 1 && H.log_n == N, "blocked write completed by an event");
         kani::cover!(mt::L[0].n_delivered == 1 && H.log_n == 1 && H.reader_dropped, "blocked write: one item, then the reader went away");
     }
 }
-fn cw_pd() {
+fn cw_pd<const N: usize>() {
     unsafe {
-        kani::cover!(H.cancel_write_calls == 1 && H.log_n == 1, "dropped mid-flight, one item had gone through: the other two are dropped");
+        kani::cover!(H.cancel_write_calls == 1 && H.log_n == 1, "dropped mid-flight, one item had gone through: the rest is dropped");
         kani::cover!(H.cancel_write_calls == 1 && H.log_n == 0, "dropped mid-flight, cancelled: all values dropped");
     }
 }
-fn cw_ped() {
+fn cw_ped<const N: usize>() {
     unsafe {
-        kani::cover!(H.cancel_write_calls == 0 && mt::L[0].n_delivered == 1 && H.log_n == 2, "dropped with a partial completion queued");
+        kani::cover!(H.cancel_write_calls == 0 && mt::L[0].n_delivered == 1 && H.log_n == N - 1, "dropped with a partial completion queued");
+    }
+}
+fn cw_pep1() {
+    unsafe {
+        kani::cover!(mt::L[0].n_delivered == 1 && H.log_n == 1 && !H.reader_dropped, "blocked write completed by an event");
+        kani::cover!(mt::L[0].n_delivered == 1 && H.log_n == 0 && H.reader_dropped, "blocked write: the reader went away, value handed back");
+    }
+}
+fn cr_pep1() {
+    unsafe {
+        kani::cover!(mt::L[0].n_delivered == 1 && H.produced_n == 1, "blocked read completed by an event");
+        kani::cover!(mt::L[0].n_delivered == 1 && H.produced_n == 0 && H.writer_dropped, "blocked read: writer went away");
     }
 }
 fn cw_len0() {
@@ -752,17 +790,26 @@ fn cw_len0() {
     }
 }
 
-c19w!(c19_write_u8_pc, u8, 3, [P C], cw_pc);
-c19w!(c19_write_u8_pec, u8, 3, [P E C], cw_pec);
-c19w!(c19_write_u8_pep, u8, 3, [P E P], cw_pep);
-c19w!(c19_write_u8_pd, u8, 3, [P], cw_pd);
-c19w!(c19_write_u8_ped, u8, 3, [P E], cw_ped);
-c19w!(c19_write_u8_len0_pc, u8, 0, [P C], cw_len0);
-c19w!(c19_write_val_pc, Val, 3, [P C], cw_pc);
-c19w!(c19_write_val_pep, Val, 3, [P E P], cw_pep);
-c19w!(c19_write_val_pd, Val, 3, [P], cw_pd);
-c19w!(c19_deep_write_val_pec, Val, 3, [P E C], cw_pec);
-c19w!(c19_deep_write_val_ped, Val, 3, [P E], cw_ped);
+// quick tier: 2 items (counts 0, 1 = partial, 2 = all); thorough tier: 3 items
+// for the canonical payload (the lifted payload with 3 items exceeds the
+// 12 GB cap as soon as an event is involved)
+c19w!(c19_write_u8_pc, u8, 2, alloc_2, [P C], cw_pc::<2>);
+c19w!(c19_write_u8_pec, u8, 2, alloc_2, [P E C], cw_pec::<2>);
+c19w!(c19_write_u8_pep, u8, 2, alloc_2, [P E P], cw_pep::<2>);
+c19w!(c19_write_u8_pd, u8, 2, alloc_2, [P], cw_pd::<2>);
+c19w!(c19_write_u8_ped, u8, 2, alloc_2, [P E], cw_ped::<2>);
+c19w!(c19_write_u8_len0_pc, u8, 0, alloc_0, [P C], cw_len0);
+c19w!(c19_write_val_pc, Val, 2, alloc_2, [P C], cw_pc::<2>);
+c19w!(c19_write_val_pep, Val, 1, alloc_1, [P E P], cw_pep1);
+c19w!(c19_write_val_pd, Val, 2, alloc_2, [P], cw_pd::<2>);
+c19w!(c19_deep_write_val_pec, Val, 2, alloc_2, [P E C], cw_pec::<2>);
+c19w!(c19_deep_write_val_ped, Val, 2, alloc_2, [P E], cw_ped::<2>);
+c19w!(c19_deep_write_u8_len3_pc, u8, 3, alloc_3, [P C], cw_pc::<3>);
+c19w!(c19_deep_write_u8_len3_pec, u8, 3, alloc_3, [P E C], cw_pec::<3>);
+c19w!(c19_deep_write_u8_len3_pep, u8, 3, alloc_3, [P E P], cw_pep::<3>);
+c19w!(c19_deep_write_u8_len3_pd, u8, 3, alloc_3, [P], cw_pd::<3>);
+c19w!(c19_deep_write_val_len3_pc, Val, 3, alloc_3, [P C], cw_pc::<3>);
+c19w!(c19_deep_write_val_len3_pd, Val, 3, alloc_3, [P], cw_pd::<3>);
 
 // ---- write_all / write_one: several rendezvous -------------------------------------
 
@@ -783,10 +830,11 @@ macro_rules! drive {
 }
 
 macro_rules! c19wall {
-    ($name:ident, $t:ty, $len:expr, [$($rounds:tt)*]) => {
+    ($name:ident, $t:ty, $len:expr, $unwind:expr, $alloc:ident, [$($rounds:tt)*]) => {
         #[kani::proof]
-        #[kani::unwind(5)]
+        #[kani::unwind($unwind)]
         #[kani::stub(wit_bindgen::rt::async_support::cabi::wasip3_task_set, crate::mock_task::stub_task_set)]
+        #[kani::stub(std::alloc::alloc, $alloc)]
         fn $name() {
             unsafe {
                 let mut t1 = mt::new_v1_a();
@@ -817,19 +865,21 @@ macro_rules! c19wall {
                     back = take_back_rest(v, H.log_n, $len);
                 }
                 finish_write::<$t>($len, back);
-                kani::cover!(back == 0 && H.log_n == $len && H.writes_started == 3, "all items sent one by one over three rendezvous");
-                kani::cover!(back == 2 && H.reader_dropped, "reader dropped after the first item: two values handed back");
+                kani::cover!(back == 0 && H.log_n == $len && H.writes_started == $len, "all items sent one by one, one rendezvous each");
+                kani::cover!(back == $len - 1 && H.reader_dropped, "reader dropped after the first item: the rest is handed back");
                 kani::cover!(H.writes_started == 2 && H.log_n == $len && mt::L[0].n_delivered == 2, "two blocked writes completed by events");
             }
         }
     };
 }
-c19wall!(c19_write_all_u8, u8, 3, [R R R]);
-c19wall!(c19_deep_write_all_val, Val, 3, [R R R]);
+c19wall!(c19_write_all_u8, u8, 2, 4, alloc_2, [R R]);
+c19wall!(c19_deep_write_all_u8_len3, u8, 3, 5, alloc_3, [R R R]);
+c19wall!(c19_deep_write_all_val, Val, 2, 4, alloc_2, [R R]);
 
 #[kani::proof]
-#[kani::unwind(5)]
+#[kani::unwind(3)]
 #[kani::stub(wit_bindgen::rt::async_support::cabi::wasip3_task_set, crate::mock_task::stub_task_set)]
+#[kani::stub(std::alloc::alloc, alloc_1)]
 fn c19_write_one_u8() {
     unsafe {
         let mut t1 = mt::new_v1_a();
@@ -950,10 +1000,11 @@ unsafe fn finish_read<T: Item>(held: usize) {
 }
 
 macro_rules! c19r {
-    ($name:ident, $t:ty, $cap:expr, [$($script:tt)*], $covers:expr) => {
+    ($name:ident, $t:ty, $cap:expr, $alloc:ident, [$($script:tt)*], $covers:expr) => {
         #[kani::proof]
         #[kani::unwind(5)]
         #[kani::stub(wit_bindgen::rt::async_support::cabi::wasip3_task_set, crate::mock_task::stub_task_set)]
+        #[kani::stub(std::alloc::alloc, $alloc)]
         fn $name() {
             unsafe {
                 let mut t1 = mt::new_v1_a();
@@ -980,54 +1031,59 @@ macro_rules! c19r {
     };
 }
 
-fn cr_pc() {
+fn cr_pc<const N: usize>() {
     unsafe {
-        kani::cover!(H.cancel_read_calls == 0 && H.produced_n == 3, "buffer filled at once");
+        kani::cover!(H.cancel_read_calls == 0 && H.produced_n == N, "buffer filled at once");
         kani::cover!(H.cancel_read_calls == 0 && H.produced_n == 1 && !H.writer_dropped, "partial read");
-        kani::cover!(H.cancel_read_calls == 0 && H.produced_n == 2 && H.writer_dropped, "writer dropped after a partial transfer");
+        kani::cover!(H.cancel_read_calls == 0 && H.produced_n == 1 && H.writer_dropped, "writer dropped after a partial transfer");
         kani::cover!(H.cancel_read_calls == 1 && H.produced_n == 0 && !H.writer_dropped, "cancel won, nothing read");
-        kani::cover!(H.cancel_read_calls == 1 && H.produced_n == 2, "cancel lost or partial: two items arrived");
+        kani::cover!(H.cancel_read_calls == 1 && H.produced_n == N, "cancel lost: the buffer was filled");
     }
 }
-fn cr_pec() {
+fn cr_pec<const N: usize>() {
     unsafe {
-        kani::cover!(H.cancel_read_calls == 0 && mt::L[0].n_delivered == 1 && H.produced_n == 2, "cancel() with a completion already queued");
+        kani::cover!(H.cancel_read_calls == 0 && mt::L[0].n_delivered == 1 && H.produced_n == N, "cancel() with a completion already queued");
     }
 }
-fn cr_pep() {
+fn cr_pep<const N: usize>() {
     unsafe {
-        kani::cover!(mt::L[0].n_delivered == 1 && H.produced_n == 3, "blocked read completed by an event");
+        kani::cover!(mt::L[0].n_delivered == 1 && H.produced_n == N, "blocked read completed by an event");
         kani::cover!(mt::L[0].n_delivered == 1 && H.produced_n == 0 && H.writer_dropped, "blocked read: writer went away");
     }
 }
-fn cr_pd() {
+fn cr_pd<const N: usize>() {
     unsafe {
-        kani::cover!(H.cancel_read_calls == 1 && H.produced_n == 2, "dropped mid-flight, two items had arrived: they are dropped with the future");
+        kani::cover!(H.cancel_read_calls == 1 && H.produced_n == N, "dropped mid-flight, items had arrived: they are dropped with the future");
         kani::cover!(H.cancel_read_calls == 1 && H.produced_n == 0, "dropped mid-flight, cancelled");
     }
 }
-fn cr_ped() {
+fn cr_ped<const N: usize>() {
     unsafe {
         kani::cover!(H.cancel_read_calls == 0 && mt::L[0].n_delivered == 1 && H.produced_n == 1, "dropped with a completion queued");
     }
 }
 
-c19r!(c19_read_u8_pc, u8, 3, [P C], cr_pc);
-c19r!(c19_read_u8_pec, u8, 3, [P E C], cr_pec);
-c19r!(c19_read_u8_pep, u8, 3, [P E P], cr_pep);
-c19r!(c19_read_u8_pd, u8, 3, [P], cr_pd);
-c19r!(c19_read_u8_ped, u8, 3, [P E], cr_ped);
-c19r!(c19_read_val_pc, Val, 3, [P C], cr_pc);
-c19r!(c19_read_val_pep, Val, 3, [P E P], cr_pep);
-c19r!(c19_read_val_pd, Val, 3, [P], cr_pd);
-c19r!(c19_deep_read_val_pec, Val, 3, [P E C], cr_pec);
-c19r!(c19_deep_read_val_ped, Val, 3, [P E], cr_ped);
+c19r!(c19_read_u8_pc, u8, 2, alloc_2, [P C], cr_pc::<2>);
+c19r!(c19_read_u8_pec, u8, 2, alloc_2, [P E C], cr_pec::<2>);
+c19r!(c19_read_u8_pep, u8, 2, alloc_2, [P E P], cr_pep::<2>);
+c19r!(c19_read_u8_pd, u8, 2, alloc_2, [P], cr_pd::<2>);
+c19r!(c19_read_u8_ped, u8, 2, alloc_2, [P E], cr_ped::<2>);
+c19r!(c19_read_val_pc, Val, 2, alloc_2, [P C], cr_pc::<2>);
+c19r!(c19_read_val_pep, Val, 1, alloc_1, [P E P], cr_pep1);
+c19r!(c19_read_val_pd, Val, 2, alloc_2, [P], cr_pd::<2>);
+c19r!(c19_deep_read_val_pec, Val, 2, alloc_2, [P E C], cr_pec::<2>);
+c19r!(c19_deep_read_val_ped, Val, 2, alloc_2, [P E], cr_ped::<2>);
+c19r!(c19_deep_read_u8_cap3_pc, u8, 3, alloc_3, [P C], cr_pc::<3>);
+c19r!(c19_deep_read_u8_cap3_pec, u8, 3, alloc_3, [P E C], cr_pec::<3>);
+c19r!(c19_deep_read_u8_cap3_pep, u8, 3, alloc_3, [P E P], cr_pep::<3>);
+c19r!(c19_deep_read_u8_cap3_pd, u8, 3, alloc_3, [P], cr_pd::<3>);
 
 // ---- next / collect ------------------------------------------------------------------
 
 #[kani::proof]
 #[kani::unwind(5)]
 #[kani::stub(wit_bindgen::rt::async_support::cabi::wasip3_task_set, crate::mock_task::stub_task_set)]
+#[kani::stub(std::alloc::alloc, alloc_1)]
 fn c19_next_u8() {
     unsafe {
         let mut t1 = mt::new_v1_a();
